@@ -518,6 +518,10 @@ class Rewriter:
             cut = self.choose('rw%d.cut' % self.count, len(content) + 1)
             self.count += 1
             parts = [content[:cut], content[cut:]]
+            if not content:
+                # 8.7.3.2 note: zero, one or more segments
+                parts = [[], []][:self.choose('rw%d.nseg' % self.count, 3)]
+                self.count += 1
         segs = []
         for i, p in enumerate(parts):
             prim = [_c(b) for b in tag_octets(seg_tag, False)] + [_c(b) for b in length_octets(len(p))] + p
